@@ -700,6 +700,64 @@ def gen_binding_case(rng, tier="quick"):
     return case
 
 
+def gen_focus_case(rng):
+    """two regions the uniform generator reaches rarely: (1) omitted positional-only defaults around private slots,
+    (2) keys that look like parameters but are ordinary **kwargs keys (positional-only names, case variants)"""
+    opts = dict(rng.choice(OPTION_CHOICES))
+    params = []
+    if rng.random() < 0.5:
+        if rng.random() < 0.6:
+            params.append({"name": "a", "kind": "po", "ann": "int"})
+        pool = [{"name": "_x", "kind": "po", "default": {"v": 9}},
+                {"name": "c", "kind": "po", "ann": "int", "default": {"v": 2}, "use_param": rng.random() < 0.6},
+                {"name": "_y", "kind": "po", "default": {"v": 8}},
+                {"name": "e", "kind": "po", "default": {"v": "4"}, "use_param": rng.random() < 0.6}]
+        k = rng.randint(1, 4)
+        start = rng.randint(0, 4 - k)
+        params += pool[start:start + k]
+        if rng.random() < 0.4:
+            params.append({"name": "b", "kind": "pk", "ann": "int", "default": {"v": 1}})
+        if rng.random() < 0.3:
+            params.append({"name": "r", "kind": "vp", "ann": "int"})
+        if rng.random() < 0.3:
+            params.append({"name": "d", "kind": "ko", "ann": "int", "default": {"v": 5}})
+        npos = sum(p["kind"] in ("po", "pk") for p in params)
+        must = 1 if params[0]["name"] == "a" else 0
+        n = rng.randint(must, npos)
+        args = [gen_value(rng, p.get("ann")) for p in params[:n]]
+        kwargs = [["d", enc(gen_value(rng, "int"))]] if any(p["name"] == "d" for p in params) and rng.random() < 0.5 else []
+        args = [enc(a) for a in args]
+    else:
+        params.append({"name": "a", "kind": "po", "ann": "int", **({"default": {"v": 3}} if rng.random() < 0.4 else {})})
+        if rng.random() < 0.5:
+            params.append({"name": "b", "kind": "pk", "ann": "int", "default": {"v": 1},
+                           **({"ci": True} if rng.random() < 0.3 else {}), **({"alias": "Bee"} if rng.random() < 0.3 else {})})
+        if rng.random() < 0.4:
+            params.append({"name": "c", "kind": "ko", "default": {"v": 0}})
+        params.append({"name": "kw", "kind": "vk", **({"ann": "int"} if rng.random() < 0.6 else {})})
+        vkann = params[-1].get("ann")
+        args = [] if params[0].get("default") and rng.random() < 0.4 else [enc(gen_value(rng, "int"))]
+        if len(args) == 1 and len(params) > 2 and params[1]["name"] == "b" and rng.random() < 0.3:
+            args.append(enc(gen_value(rng, "int")))
+        cand = ["a", "A", "zz", "_u"]
+        if any(p["name"] == "b" for p in params):
+            b = next(p for p in params if p["name"] == "b")
+            cand += [spell(rng, b, opts)] if len(args) < 2 else []
+            if not is_ci(b, opts):
+                cand.append("B")
+        if any(p["name"] == "c" for p in params):
+            cand += ["c", "C"] if not opts.get("case_insensitive") else ["c"]
+        ks = rng.sample(cand, rng.randint(1, min(3, len(cand))))
+        seen, kwargs = set(), []
+        for k in ks:
+            if k not in seen:
+                seen.add(k)
+                kwargs.append([k, enc(gen_value(rng, vkann))])
+    ctx = rng.choice(["func"] * 4 + ["inst", "static", "klass"])
+    return {"kind": "bind", "params": params, "ctx": ctx, "wrapper": rng.choice(["sync"] * 4 + ["coro", "gen"]),
+            "eager": rng.random() < 0.3, "options": opts, "retval": {"v": 1}, "args": args, "kwargs": kwargs}
+
+
 def gen_generator_case(rng):
     wrapper = rng.choice(["gen", "agen"])
     nsteps = rng.randint(1, 4)
@@ -942,7 +1000,7 @@ class C08(Check):
     driver = "C08"
     impl = "harness.c08:impl"
     case_timeout = 20.0
-    budget = {"quick": 10000, "thorough": 40000}
+    budget = {"quick": 10000, "thorough": 120000}
     search_budget = {"quick": 4000, "thorough": 40000}
     rule = ("random declarations (0-5 parameters over the five kinds; int/str annotations; defaults; Param(alias, alias_from, "
             "case_insensitive); private `_x` names) in 9 class contexts x 4 wrapper kinds x eager/lazy x 11 Options, each with a "
@@ -960,7 +1018,8 @@ class C08(Check):
         if tier == "thorough":
             out += exhaustive_cases()
         for _ in range(n):
-            out.append(gen_generator_case(rng) if rng.random() < 0.12 else gen_binding_case(rng, tier))
+            r = rng.random()
+            out.append(gen_generator_case(rng) if r < 0.12 else gen_focus_case(rng) if r < 0.3 else gen_binding_case(rng, tier))
         return out
 
     def model_line(self, case):
